@@ -17,7 +17,7 @@ ASSUMPTIONS = [
 ]
 RULE = ("run = 1-4 descriptions (paper/example files, generator boards, random well-formed, malformed, no-solution; "
         "sometimes two descriptions sharing one transition-list object) + 3-25 ops from {new, solve same object, "
-        "solve fresh object, toggle pruning flag, batch via run_games, restart} under seeded log level / stack depth / "
+        "solve fresh object, toggle pruning flag, check_game/count_transitions/init_states on a live object, batch via run_games, restart} under seeded log level / stack depth / "
         "PRNG pollution / clock / interrupt-at-step-k; non-trivial = some description is solved at least twice with a "
         "pruned solve before the last one; distinct = hash of (op kinds, description hashes, fault kinds fired)")
 
@@ -56,6 +56,9 @@ def gen(rng, tier, ctx):
             if isinstance(var["rewards"][k], (int, float)):
                 var["rewards"][k] = var["rewards"][k] + rng.randint(1, 3)
             descs[nd - 1] = {"desc": enc(var), "tag": descs[src]["tag"] + "+variant", "share_tl_with": src}
+            if rng.random() < 0.5:
+                # also share the players / final_states list objects (as `dict(g1, rewards=...)` does)
+                descs[nd - 1]["share_fields"] = rng.sample(["players", "final_states"], rng.randint(1, 2))
     n_ops = rng.randint(3, 25 if tier == "thorough" else 14)
     opl = []
     handles = []
@@ -72,8 +75,10 @@ def gen(rng, tier, ctx):
             op = {"op": "solve", "h": rng.choice(handles)}
         elif r < 0.72:
             op = {"op": "solve_fresh", "d": rng.randrange(nd), "prune": rng.random() < 0.65}
-        elif r < 0.8:
+        elif r < 0.78:
             op = {"op": "toggle", "h": rng.choice(handles)}
+        elif r < 0.83:
+            op = {"op": "aux", "h": rng.choice(handles), "what": rng.choice(["check_game", "count_transitions", "init_states"])}
         elif r < 0.93:
             k = rng.randint(1, nd)
             op = {"op": "batch", "ds": rng.sample(range(nd), k)}
@@ -158,6 +163,9 @@ def _materialise(spec):
         if sw is not None and sw < len(live) and isinstance(obj, dict) and "transition_list" in live[sw]:
             if canon(obj.get("transition_list")) == canon(live[sw]["transition_list"]):
                 obj["transition_list"] = live[sw]["transition_list"]
+            for fld in d.get("share_fields", []):
+                if canon(obj.get(fld)) == canon(live[sw].get(fld)):
+                    obj[fld] = live[sw][fld]
         live.append(obj)
     return live
 
@@ -300,6 +308,12 @@ def execute(spec, w, ctx):
                 events.append([i_op, "toggle", op["h"], obj.prune_states])
             except Exception:
                 pass
+        elif kind == "aux":
+            if op["h"] not in handles:
+                continue
+            obj, d = handles[op["h"]]
+            out = w.run_op(lambda: getattr(obj, op["what"])(), {"step_cap": 10 ** 7})
+            events.append([i_op, "aux", op["what"], out["status"], out.get("etype")])
         elif kind == "restart":
             w.restart(op.get("entropy", 0))
             handles.clear()
